@@ -62,21 +62,25 @@ class Preempter:
         self.mon = sys.monitoring
         self.ok = self.mon.get_tool(TOOL) is None
         self.codes = code_objects(modules) if self.ok else []
+        self.trace = []
+        self.loc_uses = {}
         self.ctl = {"a": None, "k": 0, "count": 0, "b": None, "inside": False, "b_out": None, "b_ran": False}
         if not self.ok:
             return
         mon = self.mon
         mon.use_tool_id(TOOL, "skv-preempt")
-        mon.register_callback(TOOL, mon.events.LINE, lambda code, line: self._maybe())
-        mon.register_callback(TOOL, mon.events.PY_START, lambda code, offset: self._maybe())
+        mon.register_callback(TOOL, mon.events.LINE, lambda code, line: self._maybe(code, line))
+        mon.register_callback(TOOL, mon.events.PY_START, lambda code, offset: self._maybe(code, -1))
         for co in self.codes:
             mon.set_local_events(TOOL, co, mon.events.LINE | mon.events.PY_START)
 
-    def _maybe(self):
+    def _maybe(self, code, line):
         ctl = self.ctl
         if ctl["a"] != threading.get_ident() or ctl["inside"]:
             return
         ctl["count"] += 1
+        if ctl["k"] == 0:
+            self.trace.append((code.co_filename.rsplit("/", 1)[-1], code.co_name, line))
         if ctl["count"] == ctl["k"]:
             ctl["inside"] = True
             t = threading.Thread(target=self._run_b)
@@ -111,8 +115,22 @@ class Preempter:
         return out.get("v")
 
     def count(self, work_a):
+        self.trace = []
         self._run_a(work_a, None, 0)
         return self.ctl["count"]
+
+    def points_by_location(self, rng, n):
+        """n event indices (1-based) of the last counted run, chosen so that DISTINCT source locations are covered rather than
+        the most frequently executed ones: the locations seen least often so far (over this Preempter's life) come first"""
+        by_loc = {}
+        for i, loc in enumerate(self.trace):
+            by_loc.setdefault(loc, []).append(i + 1)
+        locs = sorted(by_loc, key=lambda l: (self.loc_uses.get(l, 0), rng.random()))
+        out = []
+        for loc in locs[:n]:
+            self.loc_uses[loc] = self.loc_uses.get(loc, 0) + 1
+            out.append(rng.choice(by_loc[loc]))
+        return sorted(out)
 
     def run(self, work_a, work_b, k):
         """(A's result, B's result, did the switch happen)"""
